@@ -93,6 +93,7 @@ def run(step):
             nb._ctl.armed = True
             nb._ctl.drain()
             nb._ctl.relocate_at = {}
+            nb._sim_restored = True
             w.bufs.append(nb)
             bidmap[o.bufid] = nb._ctl.bid
     # the pre-step byte snapshot has no entry for the new buffers
